@@ -76,16 +76,52 @@ package table
 // C11 ownership for the block encoders and Build: the returned bytes are a fresh allocation of this
 // call, never a slice of a pooled buffer. `checked_conversions`: the 16-bit length fields must hold
 // the lengths they encode (they do not for keys/values of 65536 bytes and more: known finding D11).
+// Content of a data block (C11). DEnc[i] is the uncompressed byte string after the first i entries,
+// DLcp[i] the shared-prefix length stored for entry i. One record is
+//   le16(lcp) le16(len(key)-lcp) key[lcp:] le16(len(value)) value le8(tombstone) le64(version)
+// (the 16-bit fields hold the lengths modulo 65536: u16; that they hold the lengths themselves is the
+// separate `trunc` obligation, known finding D11)
+// and the stored lcp is a common prefix of the key and the previous key (that is all Decode needs:
+// key == prev[:lcp] + suffix). Proved per iteration: the buffer grows from DEnc[i] to DEnc[i+1] =
+// DEnc[i] followed by exactly that record of entries[i] (asserts after each of the seven writes), with
+// prevKey the previous entry's key; the result is the s2 compression of DEnc[len(entries)]. The
+// chain as one quantified fact over all i (dChain) is not restated in the postcondition.
+//@ ghost DEnc (Array Int Str)
+//@ ghost DLcp (Array Int Int)
+//@ define dPrev(es, i) = ite(i == 0, "", es[i-1].Key)
+//@ define dRec(base, e, l) = base + le16(u16(l)) + le16(u16(len(e.Key) - l)) + e.Key[l:len(e.Key)] + le16(u16(len(e.Value))) + string(e.Value) + le8(ite(e.Tombstone, 1, 0)) + le64(u64of(e.Version))
+//@ define dStep(es, i) = 0 <= DLcp[i] && DLcp[i] <= len(es[i].Key) && DLcp[i] <= len(dPrev(es, i)) && es[i].Key[0:DLcp[i]] == dPrev(es, i)[0:DLcp[i]] && DEnc[i+1] == dRec(DEnc[i], es[i], DLcp[i])
+//@ define dChain(es, n) = DEnc[0] == "" && all(i, 0, n, dStep(es, i))
 //@ func (*table.Data).Encode -> r, err
 //@ props C11 C12
 //@ checked_conversions
-//@ assigns BufC, BufStore, BufOwned
+//@ assigns BufC, BufStore, BufOwned, DEnc, DLcp
+//@ ensures DEnc[0] == "" && string(r) == s2c(DEnc[len(d.Entries)])
+//@ after_call utils.LCP#0: assert 0 <= result && result <= len(entry.Key) && result <= len(prevKey) && all(c, 0, result, entry.Key[c] == prevKey[c]) && prevKey == dPrev(d.Entries, rangeindex) && entry == d.Entries[rangeindex]
+//@ after_call utils.NewErrorWriter#0: ghost DEnc = store(DEnc, 0, "")
+//@ define dT1(b, l) = b + le16(u16(l))
+//@ define dT2(b, l, sfx) = dT1(b, l) + le16(u16(len(sfx)))
+//@ define dT3(b, l, sfx) = dT2(b, l, sfx) + sfx
+//@ define dT4(b, l, sfx, e) = dT3(b, l, sfx) + le16(u16(len(e.Value)))
+//@ define dT5(b, l, sfx, e) = dT4(b, l, sfx, e) + string(e.Value)
+//@ define dT6(b, l, sfx, e) = dT5(b, l, sfx, e) + le8(ite(e.Tombstone, 1, 0))
+//@ after_call (*utils.ErrorWriter).Write#0: assert w.err == nil && BufC[ref(buf)] == dT1(DEnc[rangeindex], lcp)
+//@ after_call (*utils.ErrorWriter).Write#1: assert w.err == nil && BufC[ref(buf)] == dT2(DEnc[rangeindex], lcp, suffix)
+//@ after_call (*utils.ErrorWriter).Write#2: assert w.err == nil && BufC[ref(buf)] == dT3(DEnc[rangeindex], lcp, suffix)
+//@ after_call (*utils.ErrorWriter).Write#3: assert w.err == nil && BufC[ref(buf)] == dT4(DEnc[rangeindex], lcp, suffix, entry)
+//@ after_call (*utils.ErrorWriter).Write#4: assert w.err == nil && BufC[ref(buf)] == dT5(DEnc[rangeindex], lcp, suffix, entry)
+//@ after_call (*utils.ErrorWriter).Write#5: assert w.err == nil && BufC[ref(buf)] == dT6(DEnc[rangeindex], lcp, suffix, entry)
+//@ after_call (*utils.ErrorWriter).Write#6: assert w.err == nil && BufC[ref(buf)] == dT6(DEnc[rangeindex], lcp, suffix, entry) + le64(u64of(entry.Version))
+//@ after_call (*utils.ErrorWriter).Write#6: assert suffix == entry.Key[lcp:len(entry.Key)] && len(suffix) == len(entry.Key) - lcp
+//@ after_call (*utils.ErrorWriter).Write#6: ghost DLcp = store(DLcp, rangeindex, lcp)
+//@ after_call (*utils.ErrorWriter).Write#6: ghost DEnc = store(DEnc, rangeindex + 1, dRec(DEnc[rangeindex], entry, lcp))
 //@ ensures forall(Int(x), old(BufOwned)[x] ==> (BufOwned[x] && BufC[x] == old(BufC)[x] && BufStore[x] == old(BufStore)[x]), trig(BufOwned[x]), trig(old(BufOwned)[x]))
 //@ ensures forall(Int(x), BufOwned[x] ==> old(BufOwned)[x], trig(BufOwned[x]))
 //@ ensures err == nil && (r != nil ==> arrid(r) >= old(alloc))
 //
 //@ loop 0:
 //@   invariant w != nil && w.err == nil && w.buf == buf && buf != nil && BufOwned[ref(buf)] && forall(Int(x), (old(BufOwned)[x] ==> (BufOwned[x] && BufC[x] == old(BufC)[x] && BufStore[x] == old(BufStore)[x])) && (BufOwned[x] ==> (old(BufOwned)[x] || x == ref(buf))), trig(BufOwned[x]), trig(old(BufOwned)[x]))
+//@   invariant BufC[ref(buf)] == DEnc[rangeindex + 1] && prevKey == dPrev(d.Entries, rangeindex + 1) && DEnc[0] == ""
 //
 //@ func (*table.Index).Encode -> r, err
 //@ props C11 C12
